@@ -16,7 +16,7 @@ from vpkit import common, zoo
 
 ID = "C33"
 N = {"quick": 120, "thorough": 4000}
-BUDGET = {"quick": 240.0, "thorough": 1500.0}
+BUDGET = {"quick": 240.0, "thorough": 700.0}
 RULE = ("case = a history of 3-4 calls drawn from preprocess_ts (all option combinations incl. "
         "split_disjoint on/off), split_disjoint_nodes, date(method=...) and the named methods, with "
         "record_provenance True/False/None and parameter values of several types (float, int, numpy "
